@@ -313,6 +313,57 @@ fn run(ctx: &mut Ctx) {
             });
         }
     }
+    // a realistic header (values as a kernel image declares them), complete, with each single tag left out, rotated,
+    // with either flag on every tag, both architectures: what one tag says must not change how another is decoded
+    ctx.bound("realistic_header", "a header with realistic contents of every kind (requests 1/6/8 and the EFI types, load addresses at 1 MiB, entry 0x100000, EGA console, framebuffer 1024x768x32 and 80x25x0, module alignment, EFI boot services, EFI entries, relocation 1 MiB..4 GiB): complete, with each single tag left out, in 4 rotations, reversed; flags all Required / all Optional / alternating; both architectures; all 10 getters and the walk");
+    {
+        let tags_for = |flagmode: usize, fbv: usize| -> Vec<Vec<u8>> {
+            let f = |i: usize| -> u16 { match flagmode { 0 => 0, 1 => 1, _ => (i % 2) as u16 } };
+            vec![
+                hd::words(hd::INFO_REQ, f(0), &[1, 6, 8, 17, 18, 12]),
+                hd::words(hd::ADDRESS, f(1), &[0x10_0010, 0x10_0000, 0x20_0000, 0x30_0000]),
+                hd::words(hd::ENTRY, f(2), &[0x10_0000]),
+                hd::words(hd::CONSOLE, f(3), &[1]),
+                hd::words(hd::FRAMEBUFFER, f(4), &[[1024, 80][fbv], [768, 25][fbv], [32, 0][fbv]]),
+                hd::words(hd::MODULE_ALIGN, f(5), &[]),
+                hd::words(hd::EFI_BS, f(6), &[]),
+                hd::words(hd::ENTRY_EFI32, f(7), &[0x10_1000]),
+                hd::words(hd::ENTRY_EFI64, f(8), &[0x10_2000]),
+                hd::words(hd::RELOCATABLE, f(9), &[0x10_0000, 0xFFFF_FFFF, 4096, 1]),
+            ]
+        };
+        for arch in [0u32, 4] {
+            for flagmode in 0..3usize {
+                for fbv in 0..2usize {
+                    let full = tags_for(flagmode, fbv);
+                    let mut variants: Vec<(String, Vec<Vec<u8>>)> = vec![("complete".into(), full.clone())];
+                    for k in 0..full.len() {
+                        let mut v = full.clone();
+                        v.remove(k);
+                        variants.push((format!("without tag #{}", k), v));
+                    }
+                    for rot in [1usize, 3, 5, 7] {
+                        let mut v = full.clone();
+                        v.rotate_left(rot);
+                        variants.push((format!("rotated by {}", rot), v));
+                    }
+                    let mut rv = full.clone();
+                    rv.reverse();
+                    variants.push(("reversed".into(), rv));
+                    for (what, mut tags) in variants {
+                        tags.push(hd::end_tag());
+                        let h = hd::header(arch, &tags, 0);
+                        let describe = || J::obj().set("part", "realistic_header").set("architecture", arch).set("flags", ["all required", "all optional", "alternating"][flagmode]).set("framebuffer", ["1024x768x32", "80x25x0"][fbv]).set("variant", what.as_str()).set("header", J::hex(&h));
+                        ctx.leaf(describe, |ctx| {
+                            ctx.state(hash::hash_bytes(&h));
+                            ctx.nontrivial();
+                            exec(ctx, &arena, &h, &getters, "realistic_header");
+                        });
+                    }
+                }
+            }
+        }
+    }
     // long headers: tags on both sides of the offsets 8192 and 32768 the specification mentions
     let big = Arena::new(20);
     for n in [2030usize, 2038, 2039, 2040, 2041, 2042, 2043, 8182, 8183, 8184, 8185, 8186, 16384] {
